@@ -24,36 +24,36 @@ import (
 	"github.com/arr-ai/arrai/syntax"
 )
 
-// recFs records the raw name of every path the implementation asks the source
+// recFs16 records the raw name of every path the implementation asks the source
 // file system for.
-type recFs struct {
+type recFs16 struct {
 	afero.Fs
 	mu  sync.Mutex
 	log [][2]string
 }
 
-func (r *recFs) rec(op, name string) {
+func (r *recFs16) rec(op, name string) {
 	r.mu.Lock()
 	r.log = append(r.log, [2]string{op, name})
 	r.mu.Unlock()
 }
 
-func (r *recFs) Open(name string) (afero.File, error) {
+func (r *recFs16) Open(name string) (afero.File, error) {
 	r.rec("open", name)
 	return r.Fs.Open(name)
 }
 
-func (r *recFs) OpenFile(name string, flag int, perm os.FileMode) (afero.File, error) {
+func (r *recFs16) OpenFile(name string, flag int, perm os.FileMode) (afero.File, error) {
 	r.rec("open", name)
 	return r.Fs.OpenFile(name, flag, perm)
 }
 
-func (r *recFs) Stat(name string) (os.FileInfo, error) {
+func (r *recFs16) Stat(name string) (os.FileInfo, error) {
 	r.rec("stat", name)
 	return r.Fs.Stat(name)
 }
 
-func (r *recFs) snapshot() [][2]string {
+func (r *recFs16) snapshot() [][2]string {
 	r.mu.Lock()
 	defer r.mu.Unlock()
 	return append([][2]string(nil), r.log...)
@@ -160,7 +160,7 @@ func init() {
 		if err := os.Chdir(cwd); err != nil {
 			return map[string]any{"st": "harness-error", "msg": err.Error()}
 		}
-		rfs := &recFs{Fs: afero.NewOsFs()}
+		rfs := &recFs16{Fs: afero.NewOsFs()}
 		ch := make(chan evalResult, 1)
 		go func() {
 			var r evalResult
